@@ -85,6 +85,14 @@ def generate(rng, tier):
             elif r < 0.4:
                 frame += bytes(rng.randrange(256) for _ in range(rng.randrange(1, 4)))
         yield {"raw": frame.hex()}
+    # every TPCI octet in a length-consistent frame, for both address types (seed round 4, C12-4: the group-addressed
+    # branch of TPCI.resolve was only reached with sequence fields 0/1 in well-formed frames)
+    for code in ldata:
+        for at in (0, 1):
+            for tp in range(256):
+                head = bytes([code, 0, 0xBC, (at << 7) | 0x60, 0x11, 0x01, 0x0A, 0x03])
+                yield {"raw": (head + bytes([0, tp])).hex()}
+                yield {"raw": (head + bytes([1, tp, 0x80])).hex()}
     # every truncation of some valid frames
     for h in ("2900bce011010901010081", "1100b4e000000000020040ff", "2e00b0601101110100c2", "2903010203bce0110109010300801234"):
         b = bytes.fromhex(h)
